@@ -14,6 +14,7 @@ use crate::rng::Rng;
 use routee_compass_core::algorithm::search::edge_traversal::EdgeTraversal;
 use routee_compass_core::model::cost::cost_aggregation::CostAggregation;
 use routee_compass_core::model::cost::cost_model::CostModel;
+use routee_compass_core::model::cost::cost_ops;
 use routee_compass_core::model::cost::network::network_cost_rate::NetworkCostRate;
 use routee_compass_core::model::cost::vehicle::vehicle_cost_rate::VehicleCostRate;
 use routee_compass_core::model::network::edge_id::EdgeId;
@@ -347,7 +348,7 @@ fn eval(case: &Case, ghost: bool) -> (Out, Vec<String>) {
 }
 
 fn case_line(case: &Case, order: &[String]) -> String {
-    let mut out: Vec<String> = vec![];
+    let mut out: Vec<String> = vec!["api".into()];
     out.push(if case.mul { "mul".into() } else { "sum".into() });
     out.push(order.len().to_string());
     for name in order {
@@ -896,6 +897,86 @@ fn one(ctx: &mut Ctx, idx: usize, case: &Case, rng: &mut Rng) {
     oracle(ctx, idx, case, &out, rng);
 }
 
+/// the three `cost_ops::calculate_*` functions called directly, on arbitrary index lists and vector
+/// lengths (reaches what `CostModel::new` never builds: indices outside the vectors, repeated indices,
+/// an empty feature list, weights shorter than the rates)
+fn ops_case(ctx: &mut Ctx, idx: usize, rng: &mut Rng) {
+    let mul = rng.chance(1, 2);
+    let len = |rng: &mut Rng| if rng.chance(2, 3) { 4 } else { rng.below(6) };
+    let ni = if rng.chance(1, 10) { 0 } else { 1 + rng.below(5) };
+    let hi = if rng.chance(1, 2) { 4 } else { 7 };
+    let indices: Vec<usize> = (0..ni).map(|_| rng.below(hi)).collect();
+    let weights: Vec<f64> = (0..len(rng)).map(|_| if rng.chance(1, 6) { 0.0 } else { value(rng) }).collect();
+    let vrates: Vec<VR> = (0..len(rng)).map(|_| gen_vr(rng, 1)).collect();
+    let nrates: Vec<NR> = (0..len(rng)).map(|_| gen_nr(rng, 1)).collect();
+    let prev: Vec<f64> = (0..len(rng)).map(|_| value(rng)).collect();
+    let next: Vec<f64> = (0..len(rng)).map(|_| value(rng)).collect();
+    let (e, pe, ne) = (rng.below(6), rng.below(4), rng.below(4));
+    let mut line: Vec<String> = vec!["ops".into(), if mul { "mul".into() } else { "sum".into() }];
+    line.push(indices.len().to_string());
+    line.extend(indices.iter().map(|i| i.to_string()));
+    line.push(weights.len().to_string());
+    line.extend(weights.iter().map(|x| fbits(*x)));
+    line.push(vrates.len().to_string());
+    vrates.iter().for_each(|r| r.enc(&mut line));
+    line.push(nrates.len().to_string());
+    nrates.iter().for_each(|r| r.enc(&mut line));
+    line.push(prev.len().to_string());
+    line.extend(prev.iter().map(|x| fbits(*x)));
+    line.push(next.len().to_string());
+    line.extend(next.iter().map(|x| fbits(*x)));
+    line.push(e.to_string());
+    line.push(pe.to_string());
+    line.push(ne.to_string());
+
+    let named: Vec<(String, usize)> = indices.iter().map(|i| (format!("f{}", i), *i)).collect();
+    let rv: Vec<VehicleCostRate> = vrates.iter().map(|r| r.real()).collect();
+    let rn: Vec<NetworkCostRate> = nrates.iter().map(|r| r.real()).collect();
+    let agg = if mul { CostAggregation::Mul } else { CostAggregation::Sum };
+    let p: Vec<StateVar> = prev.iter().map(|x| StateVar(*x)).collect();
+    let n: Vec<StateVar> = next.iter().map(|x| StateVar(*x)).collect();
+    let r = catch_unwind(AssertUnwindSafe(|| {
+        let edge = Edge::new(e, 0, 1, 1.0);
+        let prev_edge = Edge::new(pe, 2, 0, 1.0);
+        let next_edge = Edge::new(ne, 0, 1, 1.0);
+        let v = cost_ops::calculate_vehicle_costs((&p, &n), &named, &weights, &rv, &agg).ok().map(|c| c.as_f64());
+        let t = cost_ops::calculate_network_traversal_costs((&p, &n), &edge, &named, &weights, &rn, &agg).ok().map(|c| c.as_f64());
+        let a = cost_ops::calculate_network_access_costs((&p, &n), (&prev_edge, &next_edge), &named, &weights, &rn, &agg)
+            .ok()
+            .map(|c| c.as_f64());
+        (v, t, a)
+    }));
+    ctx.count("ops_case");
+    match r {
+        Err(_) => {
+            ctx.emit(idx, line.join(" "), "panic".into());
+            ctx.fail(idx, "cost_ops/panic", "cost_ops panicked".into());
+        }
+        Ok((v, t, a)) => {
+            ctx.emit(idx, line.join(" "), format!("ops {} {} {}", fopt(v), fopt(t), fopt(a)));
+            // an index outside a vector it reads is an error, never a panic or a silent default
+            let ok_v = indices.iter().all(|i| *i < prev.len() && *i < next.len() && *i < vrates.len() && *i < weights.len());
+            let ok_t = indices.iter().all(|i| *i < prev.len() && *i < next.len() && *i < nrates.len() && *i < weights.len());
+            // (the access loop tolerates a feature beyond the network rates: it contributes zero)
+            let ok_a = indices.iter().all(|i| *i >= nrates.len() || (*i < prev.len() && *i < next.len()));
+            if v.is_some() != ok_v || t.is_some() != ok_t || a.is_some() != ok_a {
+                ctx.fail(idx, "cost_ops/index-range", format!("results {:?} {:?} {:?} but in-range is {} {} {}", v, t, a, ok_v, ok_t, ok_a));
+            }
+            ctx.count(if ok_v && ok_t && ok_a { "ops_in_range" } else { "ops_out_of_range" });
+            if indices.is_empty() {
+                ctx.count("ops_empty_feature_list");
+                // no feature: nothing is charged, whatever the aggregation
+                if v != Some(0.0) || t != Some(0.0) || a != Some(0.0) {
+                    ctx.fail(idx, "cost_ops/empty-feature-list", format!("results {:?} {:?} {:?}", v, t, a));
+                }
+            }
+            if ok_v && ok_t && ok_a && !indices.is_empty() {
+                ctx.nontrivial(&line.join(" "));
+            }
+        }
+    }
+}
+
 pub fn run(ctx: &mut Ctx) -> &'static str {
     for case in corpus() {
         let Some(idx) = ctx.begin() else { continue };
@@ -910,5 +991,11 @@ pub fn run(ctx: &mut Ctx) -> &'static str {
         let case = gen_case(&mut rng);
         one(ctx, idx, &case, &mut rng);
     }
-    "hand-written corpus, then random cost-model configurations over a real StateModel (0-12 features, every vehicle/network rate constructor, Combined nested to depth 3, sum and mul aggregation, weights absent/zero/negative/zero-sum, state deltas of every sign, lookups that hit and miss, too-short state vectors); non-trivial = CostModel::new succeeds, all three API calls return a cost and at least one feature has a non-zero weight with a non-zero vehicle rate; distinct by full case text"
+    let n = ctx.n(1500, 50000);
+    for _ in 0..n {
+        let Some(idx) = ctx.begin() else { continue };
+        let mut rng = Rng::for_case(ctx.seed, 7, idx as u64);
+        ops_case(ctx, idx, &mut rng);
+    }
+    "hand-written corpus, then random cost-model configurations over a real StateModel (0-12 features, every vehicle/network rate constructor, Combined nested to depth 3, sum and mul aggregation, weights absent/zero/negative/zero-sum, state deltas of every sign, lookups that hit and miss, too-short state vectors), then the three cost_ops::calculate_* functions called directly on arbitrary index lists / vector lengths (out-of-range and repeated indices, empty feature list); non-trivial = CostModel::new succeeds, all three API calls return a cost and at least one feature has a non-zero weight with a non-zero vehicle rate, or an in-range non-empty cost_ops call; distinct by full case text"
 }
